@@ -18,6 +18,8 @@ TRUSTED = TRUSTED_COMMON + [
     "`validated(r)`: an uninterpreted marker produced only by the validate_nameserver_response stand-in; SharedCache::insert_all (stand-in) requires its argument to be the record list of a validated reply",
     "query_nameserver, candidate_nameservers, resolve_hostname_to_ip (proved separately in unit family), get_record, Metrics::*: stand-ins without postconditions beyond frames",
     "Vec<T>::clone for Vec<ResourceRecord>: same sequence (shim)",
+    "R38: `(ip, port).into()` written as shim_sockaddr(ip, port), whose result has that port (From<(IpAddr, u16)> for SocketAddr)",
+    "configured_port(): an uninterpreted constant; the three resolver functions require the context's upstream_dns_port to equal it (dns_resolver::resolve builds the context from its upstream_dns_port argument: read, not proved)",
     "R39: `opt.and_then(|res| f(.., &res, ..))` written as the equivalent match",
     "axiom_names_wf: every DomainName value is well-formed (the type invariant C16 establishes at every constructor); used only to meet candidate_nameservers' precondition at its call site",
     "axiom_rr_vec_len / axiom_dn_vec_len: Vec::len() <= isize::MAX (Rust allocation limit)",
@@ -49,8 +51,12 @@ impl SharedCache {
         requires cacheable(records@), // [C06:only_validated_records_reach_the_cache]
     { unimplemented!() }
 }
+// C18: the port this server process is configured to send upstream queries to (dns_resolver::resolve puts it into the context)
+pub uninterp spec fn configured_port() -> u16;
+pub uninterp spec fn addr_port(a: SocketAddr) -> u16;
 #[verifier::external_body]
 pub fn query_nameserver(address: SocketAddr, question: Question, recursion_desired: bool) -> (r: Option<Message>)
+    requires addr_port(address) == configured_port(), // [C18:upstream_queries_go_to_the_configured_port]
 { unimplemented!() }
 #[verifier::external_body]
 fn validate_nameserver_response(question: &Question, response: &Message, current_match_count: usize) -> (r: Option<NameserverResponse>)
@@ -70,7 +76,7 @@ fn get_record<'a>(rrs: &'a [ResourceRecord], target: &DomainName, rtype: RecordT
 #[verifier::external_body]
 fn shim_labels_to_vec(s: &[Label]) -> (r: Vec<Label>) ensures r@ == s@ { s.into() }
 #[verifier::external_body]
-fn shim_sockaddr(ip: IpAddr, port: u16) -> (r: SocketAddr) { (ip, port).into() }
+fn shim_sockaddr(ip: IpAddr, port: u16) -> (r: SocketAddr) ensures addr_port(r) == port { (ip, port).into() }
 #[verifier::external_body]
 fn shim_clone_rrs(v: &Vec<ResourceRecord>) -> (r: Vec<ResourceRecord>) ensures r@ == v@ { v.clone() }
 #[verifier::external_type_specification]
@@ -93,7 +99,7 @@ SPECS = {
         "props": ["C10"],
         "header_rewrites": [("R32", r"\basync fn\b", "fn")],
         "rewrites": [("R30", r"\s*\.instrument\(tracing::\w+!\((?:[^()]|\([^()]*\))*\)\)", ""), ("R32", r"\s*\.await\b", "")],
-        "contract": """    requires old(context).wf(),
+        "contract": """    requires old(context).wf(), old(context).r.upstream_dns_port == configured_port(),
     ensures
 """ + COMMON_FRAME + """
         // the aliases followed so far come first, in order, then what resolving their target gives
@@ -106,7 +112,7 @@ SPECS = {
         "props": ["C06", "C10"],
         "header_rewrites": [("R32", r"\basync fn\b", "fn")],
         "rewrites": [("R30", r"\s*\.instrument\(tracing::\w+!\((?:[^()]|\([^()]*\))*\)\)", ""), ("R32", r"\s*\.await\b", "")],
-        "contract": """    requires old(context).wf(), validated(nameserver_response), resp_shape(nameserver_response, *question),
+        "contract": """    requires old(context).wf(), old(context).r.upstream_dns_port == configured_port(), validated(nameserver_response), resp_shape(nameserver_response, *question),
     ensures
 """ + COMMON_FRAME + """
         r is Err ==> nameserver_response is Delegation && r->Err_0 == nameserver_response->delegation, // [C06:only_a_validated_referral_replaces_the_candidates]
@@ -134,7 +140,7 @@ CANDIDATES = {
 }
 
 RRN = {
-    "props": ["C01", "C06", "C10"],
+    "props": ["C01", "C06", "C10", "C18"],
     "header_rewrites": [("R32", r"\basync fn\b", "fn")],
     "rewrites": [("R30", r"\s*\.instrument\(tracing::\w+!\((?:[^()]|\([^()]*\))*\)\)", ""), ("R32", r"\s*\.await\b", ""),
                  ("R39", r"\.and_then\(\|res\| validate_nameserver_response\(question, &res, match_count\)\)",
@@ -142,7 +148,7 @@ RRN = {
                  ("R38", r"\(ip, context\.r\.upstream_dns_port\)\.into\(\)", "shim_sockaddr(ip, context.r.upstream_dns_port)"),
                  ("R12v", r"combined_rrs\.clone\(\)", "shim_clone_rrs(&combined_rrs)"),
                  ("R24", _r24)],
-    "contract": """    requires old(context).wf(),
+    "contract": """    requires old(context).wf(), old(context).r.upstream_dns_port == configured_port(),
     ensures
 """ + COMMON_FRAME + """
         old(context).question_stack@.len() >= ctx_limit(old(context)) ==> r == Err::<ResolvedRecord, ResolutionError>(ResolutionError::RecursionLimit), // [C10:recursion_limit_ends_the_chain]
@@ -162,6 +168,7 @@ RRN = {
     "loops": {"0": {"kw": "while", "spec": """        invariant
             context.question_stack@ == old(context).question_stack@.push(*question), same_env(old(context), &*context),
             old(context).question_stack@.len() < ctx_limit(old(context)), !old(context).question_stack@.contains(*question),
+            old(context).r.upstream_dns_port == configured_port(),
             // the cases in which local data is final have returned before the first upstream exchange
             !(zr(old(context), *question) is Some && zr(old(context), *question)->Some_0.1 is Answer && zone_soa_rr(zr(old(context), *question)->Some_0.0) is Some),
             !(zr(old(context), *question) is Some && zr(old(context), *question)->Some_0.1 is NameError && zone_soa_rr(zr(old(context), *question)->Some_0.0) is Some),
@@ -248,6 +255,7 @@ pub struct ExSocketAddr(std::net::SocketAddr);""")
 
 CANARIES = [
     {"name": "empty_candidate_set_returned", "file": REC, "old": "            if !hostnames.is_empty() {\n                return Some(Nameservers {", "new": "            if true {\n                return Some(Nameservers {"},
+    {"name": "upstream_query_to_port_53", "file": REC, "old": "(ip, context.r.upstream_dns_port).into(),", "new": "(ip, 53).into(),"},
     {"name": "validator_told_depth_zero", "file": REC, "old": ".and_then(|res| validate_nameserver_response(question, &res, match_count))", "new": ".and_then(|res| validate_nameserver_response(question, &res, 0))"},
     {"name": "referral_does_not_update_the_depth", "file": REC, "old": "                            match_count = delegation.match_count();\n", "new": ""},
     {"name": "unvalidated_records_cached", "file": REC, "old": "            tracing::trace!(\"got recursive answer\");\n            context.cache.insert_all(&rrs);", "new": "            tracing::trace!(\"got recursive answer\");\n            context.cache.insert_all(&combined_rrs);"},
